@@ -78,7 +78,7 @@ def to_gmodel(m):
 
 def api_level(chk, b, tier):
     rng = random.Random("C09|%d" % R.SEED)
-    n = 60 if tier == "quick" else 600
+    n = 60 if tier == "quick" else 2000
     limit = 720 if tier == "quick" else 5040
     cases = []
     exps = []
@@ -315,7 +315,7 @@ def run(chk, b, tier):
     sz = b.sizer()
     shimdir = b.shimdir()
     scratch = b.scratchdir()
-    n = 16 if tier == "quick" else 200
+    n = 16 if tier == "quick" else 600
     nperm = 8 if tier == "quick" else 20
     res = R.pmap(cli_case, [(R.SEED, i, sz, shimdir, scratch, nperm) for i in range(n)], chk=chk)
     listings = 0
